@@ -3,10 +3,10 @@ from .. import common as C
 from .. import lbgen, lbshadow
 
 ID = "C02"
-MODULES = ["Helios.Props.Code", "Helios.Props.C02", "Helios.Props.Facts"]
+MODULES = ["Helios.Props.CodeLB", "Helios.Props.C02", "Helios.Props.Facts"]
 THEOREMS = ["Helios.LB.dispatch_sound", "Helios.LB.dispatch_complete", "Helios.LB.no_503_while_healthy",
             "Helios.Facts.retry_budget_eq", "Helios.Facts.strategies_eq", "Helios.Facts.extraction_clean",
-            "Helios.CodeTie.eligible_refines", "Helios.CodeTie.translation_clean"]
+            "Helios.CodeTie.eligible_refines", "Helios.CodeTie.translation_clean_lb"]
 CLOCK_PKGS = ["internal/loadbalancer", "internal/ratelimiter", "internal/circuitbreaker", "internal/metrics"]
 
 
@@ -17,6 +17,10 @@ def build(ctx):
 
 def gen_episode(rng, long=False):
     g = lbgen.Gen(rng, rl=False, cb=False, passive=rng.random() < 0.4)
+    if g.strategy == "least_connections" and rng.random() < 0.25:
+        # deep queues: a backend with 100+ requests in flight is still a backend
+        for _ in range(rng.choice([100, 101, 140]) * max(1, min(2, len(g.names)))):
+            g.begin()
     n = rng.randint(10, 70 if long else 35)
     for _ in range(n):
         g.step_time()
